@@ -67,7 +67,10 @@ def plan(tier, seed):
     return [('tables', n)]
 
 
-def _handler(kind, name, sig, log):
+RAISES = {'KeyError': KeyError, 'LookupError': LookupError, 'RuntimeError': RuntimeError, 'ValueError': ValueError}
+
+
+def _handler(kind, name, sig, log, raises=None):
     """An async route function with the given signature that records its invocation and arguments."""
     from rsocket.payload import Payload
     from rsocket.extensions.composite_metadata import CompositeMetadata
@@ -85,6 +88,9 @@ def _handler(kind, name, sig, log):
 
     def rec(**kw):
         log.append((name, kw))
+        if raises:
+            # application code failing inside a registered handler (e.g. a failed dict lookup): this request alone fails
+            raise RAISES[raises]('app failure in %s' % name)
 
     if sig == '()':
         async def h():
@@ -139,7 +145,7 @@ def build_router(table, sigs, log):
         routes = ['a'][:reg[i]] if reg[i] < 2 else ['a', 'b']
         for r in routes:
             nm = '%s:%s' % (t, r)
-            deco[t][0](r)(_handler(t, nm, sigs[(t, r)], log))
+            deco[t][0](r)(_handler(t, nm, sigs[(t, r)], log, sigs.get((t, r, 'raises'))))
             names[t][r] = nm
         if unk[i]:
             nm = '%s:unknown' % t
@@ -293,7 +299,7 @@ async def _run(rng, table, sigs, requests, link_kind):
     return results, names, alive
 
 
-def judge(table, names, results, alive):
+def judge(table, names, results, alive, sigs=None):
     wit = []
     st = {'requests_dispatched': 0, 'handlers_run_checked': 0, 'gate_rejections_checked': 0,
           'unknown_route_handlers_used': 0, 'bystanders_checked': 0}
@@ -332,7 +338,12 @@ def judge(table, names, results, alive):
             if ran != [want]:
                 bad('wrong-handler-ran', r, expected=want)
                 continue
-            if t in ('rr', 'stream', 'channel') and r['out'] != ('ok', [want.encode()]):
+            raiser = (sigs or {}).get((t, want.split(':')[1], 'raises'))
+            if raiser:
+                st['raising_handlers_checked'] = st.get('raising_handlers_checked', 0) + 1
+                if t in ('rr', 'stream', 'channel') and r['out'][0] != 'error':
+                    bad('request-whose-handler-raised-did-not-fail', r, raised=raiser)
+            elif t in ('rr', 'stream', 'channel') and r['out'] != ('ok', [want.encode()]):
                 bad('requester-did-not-get-its-handlers-answer', r, expected=want)
             # declared parameters
             kw = r['ran'][0][1]
@@ -395,17 +406,20 @@ def run_case(gen, idx, rng, tier):
     for t in TYPES:
         for r in ('a', 'b', 'unknown'):
             sigs[(t, r)] = rng.choice(SIGS)
+    for t in TYPES:
+        if rng.random() < 0.25:
+            sigs[(t, 'b', 'raises')] = rng.choice(sorted(RAISES))
     requests = gen_requests(rng, nreq)
     results, names, alive = vloop.run(_run(rng, table, sigs, requests, rng.choice(['bytes', 'messages'])))
     if alive is None:
         return {'inconclusive': 'task attributes not found'}
-    wit, st, nt = judge(table, names, results, alive)
+    wit, st, nt = judge(table, names, results, alive, sigs)
     seen = set()
     ws = []
     for w in wit:
         if w['clause'] not in seen:
             seen.add(w['clause'])
-            w['detail']['signatures'] = {'%s:%s' % k: v for k, v in sigs.items()}
+            w['detail']['signatures'] = {':'.join(k): v for k, v in sigs.items()}
             ws.append(w)
     return {'evals': len(results), 'nt_keys': [short_hash(x) for x in nt], 'deciding': st, 'witnesses': ws[:4],
             'sample': {'table': {'registered(0=none,1=a,2=a+b)': dict(zip(TYPES, table[0])),
